@@ -1,6 +1,7 @@
 package main
 
 import (
+	"runtime"
 	"bytes"
 	"errors"
 	"fmt"
@@ -233,6 +234,25 @@ func checkC09(c *Ctx) {
 			j.out = runStream(&fragReader{data: st, sizes: []int{first, 1 << 20, 1 << 20, 1 << 20}, failAt: -1}, j.reuse, r)
 			jobs = append(jobs, j)
 		}
+	}
+	// chunks that begin with more than 1 KiB of blank lines, every result handed back through the
+	// reuse channel, many chunks, one P (so that pooled buffers meet again): whatever a recycled
+	// result carries back must be fit for the next chunk
+	{
+		oldp := runtime.GOMAXPROCS(1)
+		for k := 0; k < 3; k++ {
+			var sb strings.Builder
+			for l := 0; l < 40; l++ {
+				sb.WriteString(strings.Repeat("\n", 1100+300*k))
+				sb.WriteString(fmt.Sprintf("{\"line\":%d,\"s\":\"v%d\"}\n", l, l))
+			}
+			st := []byte(sb.String())
+			sizes := []int{1100 + 300*k + 5, 60}
+			j := &job{stream: st, sizes: sizes, fail: -1, reuse: 2}
+			j.out = runStream(&fragReader{data: st, sizes: sizes, failAt: -1}, 2, r)
+			jobs = append(jobs, j)
+		}
+		runtime.GOMAXPROCS(oldp)
 	}
 	c.c09HugeStream(r)
 	var reqs []string
